@@ -1209,6 +1209,10 @@ class Interp:
                     break
         if b is None:
             b = self.choose(2, f"if line {n.lineno}") == 0
+            if b and isinstance(n.test, ast.Compare) and len(n.test.ops) == 1 and isinstance(n.test.ops[0], ast.Eq) and \
+                    isinstance(n.test.left, ast.Name) and isinstance(n.test.comparators[0], ast.Constant) and \
+                    n.test.comparators[0].value == 0 and isinstance(self.env.get(n.test.left.id), Num):
+                self.env.set(n.test.left.id, Lit(0.0))      # on this arm the variable is zero
         self.run(n.body if b else n.orelse)
 
     def note_raise(self, r):
